@@ -101,6 +101,18 @@ def retry(chk, crate):
                 np_ = tr.nplace(v_.rv["p"])
                 if not np_.p:
                     disc_locals.add(np_.l)
+    # locals that flow (by plain copies/moves) into a switched-on local
+    track_locals = set(disc_locals)
+    changed = True
+    while changed:
+        changed = False
+        for l_ in list(track_locals):
+            for d_ in tr.defs.get(l_, []):
+                if d_[2] == "assign" and d_[3]["rv"]["r"] == "use":
+                    p_ = op_place(d_[3]["rv"]["o"])
+                    if p_ is not None and not p_["p"] and p_["l"] not in track_locals:
+                        track_locals.add(p_["l"])
+                        changed = True
     start = (0, "U", False, "U", ())
     seen = {start: None}
     dq = deque([start])
@@ -126,10 +138,13 @@ def retry(chk, crate):
         for st in blk["stmts"]:
             if st["s"] != "assign":
                 continue
-            if not st["p"]["p"] and st["p"]["l"] in disc_locals:
+            if not st["p"]["p"] and st["p"]["l"] in track_locals:
                 rv_ = st["rv"]
                 if rv_["r"] == "agg" and rv_["kind"] == "adt":
                     known[st["p"]["l"]] = rv_["variant"]
+                elif rv_["r"] == "use" and op_place(rv_["o"]) is not None and not op_place(rv_["o"])["p"] and \
+                        op_place(rv_["o"])["l"] in known:
+                    known[st["p"]["l"]] = known[op_place(rv_["o"])["l"]]
                 else:
                     known.pop(st["p"]["l"], None)
             if st["p"]["l"] == flag and not st["p"]["p"]:
